@@ -133,6 +133,7 @@ OShape  == {Sta("PARKED_VEHICLE", sh, InitFull, <<>>, <<>>, 1) : sh \in Shapes}
 OTraj   == {Dyn("CAR", sh, InitFull, <<>>, <<>>, 1, TrajOf(sk, vk, 1, sh)) : sh \in Shapes4, sk \in StateKinds, vk \in VKinds}
            \cup {Dyn("BUS", DefRect, InitFull, <<>>, <<>>, 1, TrajOf(sk, vk, 2, DefRect)) : sk \in StateKinds, vk \in VKinds}
 (* role x shape kind x value kind of the initial state x prediction kind *)
+InitWithPos(v) == St(TE(0), [i \in DOMAIN InitAttrsFull |-> IF InitAttrsFull[i].n = "position" THEN At2("position", v) ELSE InitAttrsFull[i]], "InitialState")
 InitVK(vk) == St(TE(0), [i \in DOMAIN InitialAttrs |-> At2(InitialAttrs[i], ValFor(InitialAttrs[i], vk))], "InitialState")
 Preds(sh) == {NoPred, TrajOf(StateKindsT[2], "exact", 2, sh)} \cup {SetOf(oc) : oc \in OccSamples}
 OInitVK == {Sta("PARKED_VEHICLE", sh, InitVK(vk), <<>>, <<>>, 1) : sh \in Shapes4, vk \in VKinds}
@@ -156,7 +157,23 @@ OSignal == {Dyn("CAR", DefRect, InitFull, <<SigOf(TE(0), S, p)>>, <<>>, 1, DefTr
 OPhantom == {Pha(NoPred)} \cup {Pha(SetOf(oc)) : oc \in OccSamples}
 OSetShapes == {Dyn("CAR", DefRect, InitFull, <<>>, <<>>, 1, SetP(1, <<Occ(TE(1), sh), Occ(TI(2, 4), sh2)>>)) :
                  sh \in GroupShapes("offset"), sh2 \in GroupShapes("origin") \cup {DefRect}}
-ObstaclePool == OType \cup OShape \cup OTraj \cup OInitVK \cup OInitSub \cup OSignal \cup OPhantom \cup OSetShapes
+ReId(o, id) == [o EXCEPT !.id = id]
+(* near-equal but different shapes in one scenario, both orders (Shape.__eq__ rounds to 10 decimals) *)
+NearShapes == { <<Rect("ordinary", "one", "zero", "p3", "one"), Rect("ordinary2", "one2", "negzero", "p3b", "one")>>,
+                <<Circ("half", "p3", "zero"), Circ("half2", "p3b", "negzero")>>, <<Poly(4, "one"), Poly(4, "one2")>> }
+NearOrdered == NearShapes \cup {<<p[2], p[1]>> : p \in NearShapes}
+ONear == {Dyn("CAR", DefRect, InitFull, <<>>, <<>>, 1, SetP(1, <<Occ(TE(1), p[1]), Occ(TE(2), p[2])>>)) : p \in NearOrdered}
+         \cup {Dyn("CAR", p[1], InitFull, <<>>, <<>>, 1, TrajOf(StateKindsT[2], "exact", 1, p[2])) : p \in NearOrdered}
+         \cup {Dyn("CAR", p[1], InitFull, <<>>, <<>>, 1, SetP(1, <<Occ(TE(1), p[2])>>)) : p \in NearOrdered}
+         \cup {Sta("PARKED_VEHICLE", p[1], InitWithPos(Reg(p[2])), <<>>, <<>>, 1) : p \in NearOrdered}
+         \cup {Pha(SetP(1, <<Occ(TE(1), Group(<<p[1], p[2]>>))>>)) : p \in NearOrdered}
+         \cup {EnvO("BUILDING", Group(<<p[1], p[2]>>)) : p \in NearOrdered}
+NearTwoObstacles == {World(DefHdr, DefLanelet(1), <<>>, <<>>, <<>>,
+                           <<ReId(Sta("PARKED_VEHICLE", p[1], InitFull, <<>>, <<>>, 1), 51), Sta("PARKED_VEHICLE", p[2], InitFull, <<>>, <<>>, 1)>>,
+                           <<DefPP(91)>>) : p \in NearOrdered}
+NearPP == {PP(91, PPInit, <<Goal(St(TI(1, 5), <<At2("position", Reg(p[1]))>>, "CustomState"), <<>>),
+                            Goal(St(TI(2, 6), <<At2("position", Reg(p[2]))>>, "CustomState"), <<>>)>>, 1) : p \in NearOrdered}
+ObstaclePool == ONear \cup OType \cup OShape \cup OTraj \cup OInitVK \cup OInitSub \cup OSignal \cup OPhantom \cup OSetShapes
 
 (* ------------------------------ planning problem pool (id 91) --------------------------------------------------- *)
 GoalPosKinds == {"none", "rect", "circle", "poly", "grp", "mix", "lanelets"}
@@ -179,7 +196,7 @@ PPGoals == {<<gl>> : gl \in Goals1}
 PPGoals3 == {<<GoalOf(a, {"velocity"}, TI(1, 5), FALSE), GoalOf("lanelets", {}, TI(2, 9), FALSE), GoalOf(b, {"orientation"}, TI(0, 3), FALSE)>> :
                a, b \in {"none", "rect", "grp", "lanelets"}}
 PPInits == {InitOf(S) : S \in SUBSET Range(InitialAttrs)} \cup {InitVK(vk) : vk \in {"ori_iv", "sc_iv", "pos_rect"}}
-PPPool == {PP(91, PPInit, gs, IF \A i \in DOMAIN gs : gs[i].lan = <<>> THEN n ELSE 0) : gs \in PPGoals \cup PPGoals3, n \in {0, 1}}
+PPPool == NearPP \cup {PP(91, PPInit, gs, IF \A i \in DOMAIN gs : gs[i].lan = <<>> THEN n ELSE 0) : gs \in PPGoals \cup PPGoals3, n \in {0, 1}}
           \cup {PP(91, ini, <<TimeGoal>>, 1) : ini \in PPInits}
 
 (* ------------------------------ lanelet pool (id 1) ------------------------------------------------------------- *)
@@ -289,15 +306,17 @@ NumLight == {Light(31, <<Cyc("RED", 2)>>, 0, XYp(t, t), "ALL", 1) : t \in AnyTok
 (* ------------------------------ cases ------------------------------------------------------------------------------ *)
 Case(comp, d, desc) == [comp |-> comp, d |-> d, desc |-> desc, reuse |-> <<>>]
 Ru(edit, w2) == <<[route |-> "writer", edit |-> edit, w2 |-> w2, first |-> "open"]>>
+RuT == <<[route |-> "twin", edit |-> "none", w2 |-> "full", first |-> "open"]>>
 RuR(edit, first) == <<[route |-> "reader", edit |-> edit, w2 |-> "full", first |-> first]>>
 (* (a case that triggers the known finding on virtual signs keeps its plain signature: no writer reuse there) *)
 CaseR(comp, d, desc, ru) == [comp |-> comp, d |-> d, desc |-> desc,
                              reuse |-> IF ReuseOK(desc, ru) /\ (\A i \in DOMAIN desc.signs : desc.signs[i].virt = 0) THEN ru ELSE <<>>]
 (* one case in three of the mixed draws reuses its writer: a random edit, second write full or scenario-only *)
-RandomReuse(i) == LET k == RandomElement(1..40) IN      \* (the parameter keeps TLC from caching one draw)
-               IF k > 20 THEN <<>>
-               ELSE IF k > 10 THEN RuR(EditTokens[((k - 1) % Len(EditTokens)) + 1], IF k <= 15 THEN "open" ELSE "open_lanelet_network")
-               ELSE Ru(EditTokens[((k - 1) % 5) + 1], IF k <= 5 THEN "full" ELSE "scenario")
+RandomReuse(i) == LET k == RandomElement(1..44) IN      \* (the parameter keeps TLC from caching one draw)
+               IF k > 24 THEN <<>>
+               ELSE IF k > 20 THEN RuT
+               ELSE IF k > 10 THEN RuR(EditTokens[((k - 1) % Len(EditTokens)) + 1], IF k % 2 = 0 THEN "open" ELSE "open_lanelet_network")
+               ELSE Ru(EditTokens[((k - 1) % Len(EditTokens)) + 1], IF k % 2 = 0 THEN "full" ELSE "scenario")
 WithL1Refs(sr, lr) == [DefLanelet(1) EXCEPT !.signs = sr, !.lights = lr]
 SignsOf(la) == SortIds(Range(la.signs) \cup UNION {Range(s.sref) : s \in Range(la.stop)})
 LightsOf(la) == SortIds(Range(la.lights) \cup UNION {Range(s.lref) : s \in Range(la.stop)})
@@ -315,7 +334,6 @@ NumDescs == {EmbedObst(o) : o \in NumObst} \cup {EmbedHdr(h) : h \in NumHdr} \cu
             \cup {EmbedPP(p) : p \in NumPP} \cup {EmbedSign(<<s, "ZAM">>) : s \in NumSign} \cup {EmbedLight(t) : t \in NumLight}
 
 (* mixed: every component drawn at random; lanelet 2 references sign 21 and light 31 so that any draw is well formed *)
-ReId(o, id) == [o EXCEPT !.id = id]
 (* "mixed": any well-formed pool element; "mixedx": only elements the XML schema can express *)
 PoolOK(d) == WellFormed(d) /\ (Component = "mixedx" => XmlExpressible(d) /\ QuotaOK(d))
 OkObst == {o \in ObstaclePool : PoolOK(EmbedObst(o))}
@@ -339,8 +357,15 @@ MixedDesc(i) ==
                       ReId(RandomElement(OkObst), 53), ReId(RandomElement(OkObstByRole["dynamic"]), 54)>>,
       pps |-> <<RandomElement(OkPP), ReId(RandomElement(OkPP), 92)>>]
 
-RichWorld(o) == World(DefHdr, LanDef("SOLID", "DASHED", Adj(2, 1), <<>>, <<Stop("SOLID", <<21>>, <<31>>, 0, 0)>>, <<"URBAN">>, <<"CAR">>, <<>>, <<21>>, <<31>>),
-                      <<DefSign(21)>>, <<DefLight(31)>>, <<Inter(41, <<Inc(45, <<1>>, <<2>>, <<>>, <<>>, 0)>>, <<3>>, 0)>>, <<o>>, <<DefPP(91)>>)
+(* a world with every component: lanelet 2 is predecessor / successor / adjacent of its neighbours and nothing else refers *)
+(* to it; sign 21 and light 31 are referenced by lanelet 1 and by its stop line                                      *)
+RichWorld(o) ==
+  [hdr |-> DefHdr,
+   lanelets |-> <<Lan(2, "one", "SOLID", "DASHED", <<>>, <<2>>, Adj(2, 1), <<>>, <<Stop("SOLID", <<21>>, <<31>>, 0, 0)>>, <<"URBAN">>, <<"CAR">>,
+                      <<>>, <<21>>, <<31>>),
+                  [DefLanelet(2) EXCEPT !.pred = <<1>>, !.succ = <<3>>, !.adjR = Adj(1, 1)], [DefLanelet(3) EXCEPT !.pred = <<2>>]>>,
+   signs |-> <<DefSign(21)>>, lights |-> <<DefLight(31)>>,
+   inters |-> <<Inter(41, <<Inc(45, <<1>>, <<3>>, <<>>, <<>>, 0)>>, <<>>, 0)>>, obstacles |-> <<o>>, pps |-> <<DefPP(91)>>]
 ReuseIdTokens == {"natural", "lights_first", "reversed"}
 RichObstacles == {Sta("PARKED_VEHICLE", DefRect, InitFull, <<>>, <<>>, 1), Dyn("CAR", DefRect, InitFull, <<>>, <<>>, 1, DefTraj),
                   Pha(SetOf(<<Occ(TE(1), DefRect)>>)), EnvO("BUILDING", DefRect)}
@@ -348,8 +373,10 @@ BothRefs(la) == \E s \in Range(la.stop) : s.sref # <<>> /\ s.lref # <<>>
 Rotate(comp, pool, Embed(_)) == LET sq == SetToSeq(pool) IN
                                 {Case(comp, 4, Renumber(Embed(sq[i]), IdTokens[(i % Len(IdTokens)) + 1])) : i \in DOMAIN sq}
 CasesOf(comp) ==
-  CASE comp = "obstacle"     -> {Case("obstacle", 4, EmbedObst(o)) : o \in ObstaclePool}
-    [] comp = "planning"     -> {Case("planning", 4, EmbedPP(p)) : p \in PPPool}
+  CASE comp = "obstacle"     -> {Case("obstacle", 4, EmbedObst(o)) : o \in ObstaclePool} \cup {Case("obstacle", 4, w) : w \in NearTwoObstacles}
+                                \* ... and the near twin of the scenario written first, by another writer object
+                                \cup {CaseR("obstacle", 4, EmbedObst(o), RuT) : o \in ONear} \cup {CaseR("obstacle", 4, w, RuT) : w \in NearTwoObstacles}
+    [] comp = "planning"     -> {Case("planning", 4, EmbedPP(p)) : p \in PPPool} \cup {CaseR("planning", 4, EmbedPP(p), RuT) : p \in NearPP}
     \* id-order tokens: ALL of them where the order of ids of different kinds can matter structurally (stop lines that refer
     \* to signs and lights, intersections with two incomings); in rotation over the rest of the pools
     [] comp = "lanelet"      -> {Case("lanelet", 4, Renumber(EmbedLanelet(la), tk)) : la \in {x \in LaneletPool : BothRefs(x)}, tk \in Range(IdTokens)}
@@ -367,6 +394,7 @@ CasesOf(comp) ==
                                    o \in RichObstacles, tk \in ReuseIdTokens, ed \in Range(EditTokens), w2 \in {"full", "scenario"}}
                                 \cup {CaseR("reuse", 4, Renumber(RichWorld(o), tk), RuR(ed, f)) :
                                         o \in RichObstacles, tk \in ReuseIdTokens, ed \in Range(EditTokens), f \in {"open", "open_lanelet_network"}}
+                                \cup {CaseR("reuse", 4, Renumber(RichWorld(o), tk), RuT) : o \in RichObstacles, tk \in ReuseIdTokens}
     \* small witnesses for the deviation configurations (DEV_Codec_*.cfg)
     [] comp = "dev_horn"     -> {Case("obstacle", 4, EmbedObst(Dyn("CAR", DefRect, InitFull, <<SigOf(TE(0), S, 1)>>, <<>>, 1, DefTraj))) :
                                    S \in {{"horn"}, {"horn", "braking_lights"}, {"braking_lights"}}}
@@ -448,7 +476,7 @@ LawImplConforms == IsSeed \/
 LawReuse == IsSeed \/ cs.reuse = <<>> \/
   LET e == EditOf(D, cs.reuse) IN
   /\ WellFormed(e) /\ (XmlExpressible(D) /\ XmlExpressible(e) => ContractDocValid(e))
-  /\ (cs.reuse[1].edit \in {"add_network", "add_pp", "light_offset", "remove_obstacle"} => Leaves(e) # Leaves(D))   \* the edit is visible
+  /\ (cs.reuse[1].edit \notin {"translate", "none"} => Leaves(e) # Leaves(D))   \* the edit is visible
 
 (* contract and schema are mutually consistent: the document the contract demands is valid *)
 LawSchema == IsSeed \/ (XmlExpressible(D) => ContractDocValid(D))
@@ -461,7 +489,7 @@ Emit == IsSeed \/
 
 (* the tables of Codec.tla, printed once: the harness checks its value tables against them *)
 ASSUME PrintT(<<"TABLE", ToJson([enums |-> EnumTables, pbenums |-> [k \in DOMAIN PbEnums |-> SetToSeq(PbEnums[k])],
-                                 numtoks |-> NumToks, positive |-> SetToSeq(PositiveToks), intervals |-> SetToSeq(IntervalPairs), angletoks |-> SetToSeq(AngleToks),
+                                 numtoks |-> NumToks \o NearToks, near |-> SetToSeq(NearPairs), positive |-> SetToSeq(PositiveToks), intervals |-> SetToSeq(IntervalPairs), angletoks |-> SetToSeq(AngleToks),
                                  attrs |-> AttrT, classes |-> StateClassT, signids |-> SignIdT \o SignIdGermanyT, signals |-> SignalT,
                                  countries |-> [c \in DOMAIN CountryClass |-> SetToSeq(CountryClass[c])],
                                  xsd |-> [k \in DOMAIN Enums |-> SetToSeq(Enums[k])], xsdtags |-> TagSeq])>>)
